@@ -801,6 +801,10 @@ func instantiateParseCase(r *rand.Rand, c map[string]interface{}) (rtype int, bo
 			"many_perms":    `avc:  denied  { read write open getattr setattr execute } for  pid=1 comm="x" tclass=file`,
 			"for_missing":   `avc:  denied  { read } pid=1`,
 			"nested_braces": `avc:  denied  { { read } } for  { x } for  pid=1`,
+			"no_perms":      `avc:  denied  for  pid=1 comm="x" scontext=a:b:c:s0 tcontext=d:e:f:s0 tclass=file`,
+			"only_prefix":   `avc:  denied  `,
+			"braces_at_end": `avc:  granted  { read }`,
+			"double_for":    `avc:  denied  { read } for  for  pid=1`,
 		}
 		return num("rtype"), forms[str("form")], "avc/" + str("form"), true
 	case "execve":
@@ -1046,7 +1050,12 @@ func parseTotalCmd(args []string) int {
 			stats["ret_"+r.ret]++
 			next++
 			if hung {
-				break
+				// the worker spins for good: one hang settles the verdict, stop here (the process
+				// exit ends the spinning goroutine; the remaining inputs are not run)
+				stats["not_run_after_hang"] = len(all) - next
+				w.close()
+				printJSON(map[string]interface{}{"stats": stats})
+				os.Exit(0)
 			}
 		}
 	}
